@@ -14,7 +14,7 @@ import gen_classtable as GC
 V = os.environ.get('VERIF_ROOT') or os.path.dirname(os.path.dirname(os.path.abspath(__file__)))
 REPO = os.environ.get('VERIF_REPO', '/repo')
 BL_GET = {'header_size', 'trailer_size', 'size', 'pdu_type', 'clone', 'advertised_size', 'inner_pdu', 'parent_pdu',
-          'matches_flag', 'serialize', 'begin', 'end', 'extensions', 'send', 'recv_response'}
+          'matches_flag', 'serialize', 'begin', 'end', 'send', 'recv_response'}
 BL_SET = {('RawPDU', 'payload')}
 EXTRA_CLASSES = ['Dot11ManagementFrame', 'Dot11ControlTA', 'EAPOL']
 
@@ -167,6 +167,13 @@ template <class O, class P> std::string to_str(const PDUOption<O, P>& o) {
     return "(" + std::to_string(opt_id(o.option())) + "," + std::to_string((unsigned long long)o.length_field()) + "," + hx(o.data_ptr(), o.data_size()) + ")";
 }
 //@STRUCT_FWD@
+// RFC 4884 extension structure of ICMP / ICMPv6: (class, type, payload) per object
+inline std::string to_str(const ICMPExtension& e) { return "(" + std::to_string((unsigned)e.extension_class()) + "," + std::to_string((unsigned)e.extension_type()) + "," + hx(e.payload().data(), e.payload().size()) + ")"; }
+inline std::string to_str(const ICMPExtensionsStructure& s) {
+    std::string r = "{"; bool f = true;
+    for (ICMPExtensionsStructure::extensions_type::const_iterator it = s.extensions().begin(); it != s.extensions().end(); ++it) { if (!f) r += ";"; f = false; r += to_str(*it); }
+    return r + "}";
+}
 template <class T> std::string to_str(const std::vector<T>& v);
 template <class T> std::string to_str(const std::list<T>& v);
 template <class A, class B> std::string to_str(const std::pair<A, B>& p);
